@@ -35,7 +35,7 @@ done
 [ $without -eq 0 ] && echo "DEMO passes-without-change" || echo "DEMO FAILS-without-change"
 # back to the changed tree, without the demonstration files
 cp $W/.seed.patch /tmp/vseed.patch.$$; git checkout -q -- . ; git clean -fdq
-git apply /tmp/vseed.patch.$$; cp /tmp/vseed.patch.$$ $V/out/last-seed.patch; rm -f /tmp/vseed.patch.$$
+git apply /tmp/vseed.patch.$$; cp /tmp/vseed.patch.$$ ${LASTSEED:-$V/out/last-seed.patch}; rm -f /tmp/vseed.patch.$$
 for prop in "$@"; do
   OUT=$(VERIF_REPO=$W $V/check $prop --tier quick 2>&1); RC=$?
   if [ $RC -eq 0 ]; then OUT=$(VERIF_REPO=$W $V/check $prop --tier thorough 2>&1); RC=$?; T=thorough; else T=quick; fi
